@@ -1204,6 +1204,61 @@ func auparseFamily(ctx *Ctx) error {
 			}
 			rec("", 0)
 		}
+		// the key=value grammar and the header grammar, systematically (bounded exhaustive): every sequence of up
+		// to 4 (thorough: 5) fragments, in and out of order
+		{
+			maxLen := 4
+			if ctx.Thorough() {
+				maxLen = 5
+			}
+			kv := []string{"a=", "b-1_x=", "\"", "'", "\\\"", "\\'", " ", "v", "="}
+			var rec func(prefix string, depth int)
+			rec = func(prefix string, depth int) {
+				if depth > 0 {
+					for _, t := range []int{1300, 1112, 1309} {
+						run(mkACase("data", t, "audit(1.000:1): "+prefix), true, true, "kv-grammar")
+					}
+				}
+				if depth == maxLen || res.NumViolations() >= 5 {
+					return
+				}
+				for _, f := range kv {
+					rec(prefix+f, depth+1)
+				}
+			}
+			rec("", 0)
+			hdr := []string{"type=SYSCALL ", "msg=", "audit(", "1.5", "12.345", ":", "7", ")", ": ", "a=b", " "}
+			var rec2 func(prefix string, depth int)
+			rec2 = func(prefix string, depth int) {
+				if depth > 0 {
+					run(mkACase("line", 0, prefix), true, true, "header-grammar")
+					run(mkACase("data", 1300, prefix), true, true, "header-grammar")
+				}
+				if depth == maxLen || res.NumViolations() >= 5 {
+					return
+				}
+				for _, f := range hdr {
+					rec2(prefix+f, depth+1)
+				}
+			}
+			rec2("", 0)
+			// ... and behind a well-formed prefix, so that the later parts of the header are reached
+			for _, pre := range []string{"type=SYSCALL msg=audit(", "type=SYSCALL msg=audit(1.5", "type=SYSCALL msg=audit(1.500:"} {
+				var rec3 func(prefix string, depth int)
+				rec3 = func(prefix string, depth int) {
+					if depth > 0 {
+						run(mkACase("line", 0, prefix), true, true, "header-grammar")
+					}
+					if depth == maxLen-1 || res.NumViolations() >= 5 {
+						return
+					}
+					for _, f := range hdr[2:] {
+						rec3(prefix+f, depth+1)
+					}
+				}
+				rec3(pre, 0)
+			}
+		}
 		// fixed lines under every record type
 		step := 1
 		if !ctx.Thorough() {
